@@ -1,0 +1,15 @@
+//go:build verif
+
+package bitio
+
+// Verification hook (properties C06/C02/C04, boolean coder). Compiled only with
+// the build tag "verif"; it adds no behaviour of its own.
+
+// VerifState returns the unexported encoder registers (range_, value, run,
+// nbBits, pos).
+func (bw *BoolWriter) VerifState() (range_, value int32, run, nbBits, pos int) {
+	return bw.range_, bw.value, bw.run, bw.nbBits, bw.pos
+}
+
+// VerifPos returns the read position and the sticky eof flag.
+func (br *BoolReader) VerifPos() (pos int, eof bool) { return br.pos, br.eof }
